@@ -83,4 +83,22 @@ Proof.
     try (destruct (code_of (nth (Z.to_nat (Z.of_nat (List.length urlpath) - 1)) urlpath "000"%char) =? 47); sd_eval);
     split; reflexivity.
 Qed.
+
+(* whatever the request: a redirect issued by this handler goes to the SANITISED path + "/" - never to a raw path *)
+Corollary src_static_dir_redirects_sanitised :
+  let '(st', _) := run ssym spred src_static_dir_handler_results src_static_dir_handler start in
+  forall args, In ("c.Redirect"%string, args) (events st') -> args = [VZ 301; VS (sanitize (urlpath ++ lit "/"))].
+Proof.
+  pose proof src_static_dir_handler_spec as H.
+  destruct (run ssym spred src_static_dir_handler_results src_static_dir_handler start) as [st' ret].
+  intros args Hin.
+  destruct (unescape p) as [q|].
+  - cbv zeta in H. destruct (stat (route_name q)) as [isdir|].
+    + destruct (isdir && no_trailing_slash urlpath); destruct H as [He _]; rewrite He in Hin; cbn in Hin;
+        repeat (destruct Hin as [Hin|Hin]; [inversion Hin; subst; try reflexivity|]); try contradiction.
+    + destruct H as [He _]. rewrite He in Hin. cbn in Hin.
+      repeat (destruct Hin as [Hin|Hin]; [inversion Hin|]); contradiction.
+  - destruct H as [He _]. rewrite He in Hin. cbn in Hin. destruct Hin as [Hin|Hin]; [inversion Hin|contradiction].
+Qed.
 End Src.
+
